@@ -2165,8 +2165,11 @@ def preprocess_file(
         def_args = def_args.split(",")
         regex = re.compile(rf"\b{def_name}\s*\({','.join(['(.*)']*len(def_args))}\)")
 
+        # The body becomes a replacement template: keep its backslashes literal
+        sub = sub.replace("\\", r"\\")
         for i, arg in enumerate(def_args, start=1):
-            sub = re.sub(rf"\b({arg.strip()})\b", rf"\\{i}", sub)
+            if arg.strip():
+                sub = re.sub(rf"\b({arg.strip()})\b", rf"\\g<{i}>", sub)
 
         return regex, sub
 
@@ -2382,6 +2385,9 @@ def preprocess_file(
 
             if isinstance(def_regex, tuple):
                 def_regex, value = def_regex
+            elif isinstance(value, str):
+                # Object-like macro bodies are literal text, not a template
+                value = value.replace("\\", r"\\")
 
             line_new, nsubs = def_regex.subn(value, line)
             if nsubs > 0:
